@@ -236,7 +236,11 @@ def local_aliases(fn: ast.AST) -> dict[str, ast.AST]:
                 if pos(x) >= last or not hasattr(x, "lineno"):
                     continue
                 if isinstance(x, ast.Attribute) and isinstance(x.ctx, (ast.Store, ast.Del)) and x.attr in chain_attrs:
-                    okk = False
+                    par_ = getattr(x, "_parent", None)
+                    # (the target of an assignment is stored after its right-hand side - where the use sits - was evaluated)
+                    if not (isinstance(par_, (ast.Assign, ast.AugAssign, ast.AnnAssign)) and getattr(par_, "value", None) is not None
+                            and any(id(y) in use_ids for y in ast.walk(par_.value))):
+                        okk = False
                 elif isinstance(x, (ast.Yield, ast.YieldFrom, ast.AsyncFor, ast.AsyncWith)):
                     okk = False
                 elif isinstance(x, ast.Await) and id(x.value) not in use_ids:
